@@ -158,9 +158,9 @@ def check_table(ctx, s_na, p_na, alignment, m_score, snote_ids, label):
         row = m_score[kk]
         ctx.check()
         want_s = (float(s_na["onset_beat"][si]), float(s_na["duration_beat"][si]), int(s_na["pitch"][si]))
-        # the table's duration is (onset + duration) - onset in float32: rounding scales with the onset
-        dur_tol = F4REL * max(1.0, abs(want_s[0]) + abs(want_s[1])) + 1e-7
-        if not (f4eq(row["onset"], want_s[0]) and abs(float(row["duration"]) - want_s[1]) <= dur_tol and int(row["pitch"]) == want_s[2]):
+        # (the duration is the score's own single-precision value; it used to be (onset + duration) - onset in float32,
+        # which loses digits late in a long piece - repaired, the allowance that scaled with the onset is gone)
+        if not (f4eq(row["onset"], want_s[0]) and f4eq(row["duration"], want_s[1]) and int(row["pitch"]) == want_s[2]):
             emit("table-row-has-another-notes-score-data", f"{label}: row {kk} ({sid}) has score data "
                  f"{(float(row['onset']), float(row['duration']), int(row['pitch']))}, the note has {want_s}", {"row": kk, "score_id": sid})
             break
